@@ -757,11 +757,22 @@ func ParseSpecFile(path, pkg, content string) (*SpecFile, error) {
 			}
 			curLoop.Decreases = c
 		case "assert_at":
-			// assert_at <ordinal-of-call> : expr   (not yet used)
-			c, err := mkClause(kw, rest, l.line)
+			// assert_at <callee> <ordinal> : expr    -- proved at the ordinal-th call of <callee> in the function,
+			// with the locals in scope and the call's arguments bound to arg0, arg1, ...
+			j := strings.Index(rest, ":")
+			f := strings.Fields(rest[:max(j, 0)])
+			if j < 0 || len(f) != 2 {
+				return nil, fmt.Errorf("%s:%d: assert_at needs '<callee> <ordinal> : <expr>'", path, l.line)
+			}
+			n, aerr := strconv.Atoi(f[1])
+			if aerr != nil {
+				return nil, fmt.Errorf("%s:%d: assert_at: bad ordinal", path, l.line)
+			}
+			c, err := mkClause(kw, rest[j+1:], l.line)
 			if err != nil {
 				return nil, err
 			}
+			c.Name = fmt.Sprintf("%s#%d", f[0], n)
 			if cur != nil {
 				cur.Asserts = append(cur.Asserts, c)
 			}
